@@ -1,6 +1,6 @@
 #!/bin/bash
 # Sensitivity validation: run checks against a modified copy of /repo (never /repo itself).
-# usage: mutant.sh <name> <patch-file | revert:COMMIT> <check ids...>   (env CASES=N overrides case counts, NOTEST=1 skips the repo suite)
+# usage: mutant.sh <name> <patch-file | revert:COMMIT> <check ids...>   (env CASES=N overrides case counts, NOTEST=1 skips the repo suite, SEEDS="1 2 3" repeats every check per seed)
 # Prints one line per check: "<name> <check> rc=<0|1|2> <seconds>s"; scratch copies are removed afterwards.
 set -u
 NAME="$1"; SRC="$2"; shift 2
@@ -30,11 +30,14 @@ if ! (cd "$S/harness" && RUSTFLAGS="--cfg tyberiusprime_pypipegraph2_verif" CARG
 fi
 cp "$ROOT/target/release/ppgcheck" "$S/ppgcheck"
 for c in "$@"; do
+  for seed in ${SEEDS:-default}; do
     t0=$(date +%s.%N)
     if [ -n "${CASES:-}" ]; then extra="--cases $CASES"; else extra=""; fi
+    [ "$seed" != default ] && extra="$extra --seed $seed"
     VERIF_DIR="$S/verif" "$S/ppgcheck" "$c" $extra >"$S/$c.out" 2>&1; rc=$?
     t1=$(date +%s.%N)
     sig=$(grep -m1 -E "^(violation|replay .* shows C)" "$S/$c.out" | cut -c1-220)
-    printf "%s %s rc=%d %.1fs %s\n" "$NAME" "$c" "$rc" "$(echo "$t1 - $t0" | bc)" "$sig"
+    printf "%s %s rc=%d %.1fs %s%s\n" "$NAME" "$c" "$rc" "$(echo "$t1 - $t0" | bc)" "$([ "$seed" != default ] && echo "seed=$seed ")" "$sig"
+  done
 done
 rm -rf "$S"
